@@ -7,7 +7,7 @@ from geom import fd_glyphs_json
 from ufo import build, rat
 
 ID = "C02"
-PROOF_FILES = ["Geom", "Reverse", "Render", "Flatten", "C02"]
+PROOF_FILES = ["Geom", "Reverse", "Render", "Flatten", "GoodCert", "C02"]
 THEOREM = "Ufo2ft.C02.C02_mixed / C02_render / C02_flatten / C02_points_perm / depth facts (+ shared geometry theorems)"
 N = {"quick": 160, "thorough": 3000}
 RULE = ("random fonts (line / quadratic contours incl. contours starting off-curve, open contours; component graphs depth<=4 with "
